@@ -3,7 +3,7 @@
    _lower table of each package): what the Properties files quote. *)
 From Strcase Require Import Base Utf8 Utf8Facts Spec SpecIndex Impl Impl2 Impl3 Impl4 Impl5 Refine_Compare Refine_Prefix Refine_Suffix Refine_Count
   Refine_RuneCase Utf8Enc Refine_RuneCase2 Refine_Byte Refine_Rune FoldFacts2
-  Impl6 Impl7 Refine_RK Refine_Index Refine_Index2 Refine_Index3 Refine_RKRev Refine_Last
+  Impl6 Impl7 Refine_RK Refine_Index Refine_Index2 Refine_Index3 Refine_RKRev Refine_Last Refine_Any
   Fold FoldFacts FoldTables FoldFacts121.
 
 Theorem width_facts121 : width_facts fold121.
@@ -45,6 +45,32 @@ Theorem containsrune_refines121 s r :
   wf s -> Impl5.ContainsRune native cutover fold_map121 upper_lower121 s r = Ok (contains_rune fold121 s r).
 Proof.
   intros Hw. unfold Impl5.ContainsRune. rewrite indexrune_refines121 by exact Hw. reflexivity.
+Qed.
+
+
+(* the Any family *)
+Theorem indexany_refines121 s chars :
+  wf s -> wf chars -> Impl7.IndexAny native cutover fold_map121 upper_lower121 s chars = Ok (index_any fold121 s chars).
+Proof.
+  apply (indexany_refines native cutover fold121 fold_map121 upper_lower121).
+  - intros r0 x Hr Hx. rewrite cands_of_eq. apply cands_exact; assumption.
+  - intros r0 x Hr Hx. rewrite cands_of_eq in Hx. apply (cands_range r0 x Hr Hx).
+  - intros r0 x Hr Hx. apply ascii_cands_exact; assumption.
+  - intros x Hx. apply rune_error_alone. exact Hx.
+Qed.
+
+Theorem containsany_refines121 s chars :
+  wf s -> wf chars -> Impl7.ContainsAny native cutover fold_map121 upper_lower121 s chars = Ok (contains_any fold121 s chars).
+Proof. intros Hs Hc. unfold Impl7.ContainsAny. rewrite (indexany_refines121 s chars Hs Hc). reflexivity. Qed.
+
+Theorem lastindexany_refines121 s chars :
+  wf s -> wf chars -> Impl7.LastIndexAny native cutover fold_map121 upper_lower121 s chars = Ok (last_index_any fold121 s chars).
+Proof.
+  apply (lastindexany_refines native cutover fold121 fold_map121 upper_lower121).
+  - intros r0 x Hr Hx. rewrite cands_of_eq. apply cands_exact; assumption.
+  - intros r0 x Hr Hx. rewrite cands_of_eq in Hx. apply (cands_range r0 x Hr Hx).
+  - intros r0 x Hr Hx. apply ascii_cands_exact; assumption.
+  - intros x Hx. apply rune_error_alone. exact Hx.
 Qed.
 
 End Single.
